@@ -194,7 +194,7 @@ def run_scenario(sc, peer_factory=None, inv_factory=None, quiesce=True) -> Run:
                     if quiesce and len(tasks) == 1:
                         await asyncio.sleep(0)
                         await asyncio.sleep(0)
-                        if sc.get('gc'):
+                        if sc.get('gc_quiesce'):
                             gc.collect()
                         st = proto_state(inv)
                         st.update(id=cid, live=len(loop.live), t=round(loop.time(), 9))
